@@ -10,13 +10,13 @@ SPEC = {
             {"args": ["-mode", "conc"], "corpus": "conc"},
         ],
     },
-    "skip_model_prefix": ["conc", "hammer"],
+    "skip_model_prefix": ["conc", "hammer", "sweep", "burst"],
     "rule": ("case = one history of storage calls executed on the real backend: (mem) sequential histories on memory.Storage with "
              "real sleeps (ttl in {0, 40 ms, 1 h, negative, 25 h}, sleep 60 ms): exhaustive matrix setup x (sleep|no sleep) x every call "
              "kind x probes, plus random histories over <= 3 keys; (red) the same call grammar on redis.Storage over miniredis "
              "(FastForward) restricted to the repositories' key shapes; (sched) every interleaving of 2-3 callers x 2 calls forced by a "
              "gated double; (conc) free-running callers released by one flag, hundreds of rounds per case, one line per distinct "
-             "outcome, checked for linearizability by the Lean spec; (hammer) reader/writer stress in a child process. "
+             "outcome, checked for linearizability by the Lean spec; (hammer) reader/writer stress in a child process; (sweep) the real sweep vs concurrent re-writes of expired keys; (burst) exhaustive 2 callers x 1 call (11 writers incl. SetNX/CAS/Incr/Append/SetHash/CleanupExpired x writers+readers) on one key that is absent / live / permanent / expired-unswept of every value kind, plus 3-caller and random bursts. "
              "non-trivial = more than one call; distinct = distinct case line"),
     "trusted_base": [
         "Lean 4.33 kernel; axioms propext, Classical.choice, Quot.sound only (audited per theorem on every run)",
@@ -29,6 +29,9 @@ SPEC = {
         "value domain: strings (JSON documents are strings), int64, lists of those, hashes field -> those; RemoveFromList/CompareAndSwap on uncomparable Go values (slices/maps as members) panic and are outside the domain",
         "atomic-step granularity = one critical section of m.mu per method (lock facts extracted from the source and checked by `lock_facts`); GetHash/GetAllHash/GetExpiration run a second section that only removes an entry re-checked as expired (modelled as the invisible call gcKey); data races below the lock are visible only to the hammer/conc runs",
         "Get/GetList hand out the stored map/slice itself (known finding get-returns-live-hash): conc cases use hash calls on key h only and never `get h`; hammer cases are holds-only (expected observation `ok`), a crash of the child process is the failing observation",
+        "one critical section per method is a HYPOTHESIS of C13_linearizable (atomicCalls), discharged from the extracted skeletons by atomic_calls / section_counts (number of Lock/RLock regions per method pinned; a second region must re-check expiry before delete); a sweep split into scan + delete phase is covered by C13_sweep_split_invisible only if the delete phase re-checks (sweep_blind_witness for the unchecked variant)",
+        "sweep cases: real CleanupExpired (loop) / StartCleanup ticker against concurrent re-writes of thousands of expired keys; per key the history set-sleep-rewrite-reads is sequential (no Delete issued), the reported key history is judged by holdsSeq",
+        "burst cases: sequential prefix (real sleeps: 2 ms lifetimes + 6 ms sleep leave expired-but-unswept entries; live keys use 1 h / permanent), then free-running callers on 16 independent stores x 2 rounds (thorough 12), then a sequential probe; judged by holdsBurst = C13_linearizable_from's predicate (order search from the prefix's end state + probe); no `get` inside a burst (known finding get-returns-live-hash)",
         "linearizability theorem: one burst at a fixed clock reading from the empty store; schedules that let every caller finish (`completes`)",
         "mem timing: a burst of calls between two sleeps must finish within 25 ms (measured; the case is rerun otherwise); model clock: 1 ns per call",
         "Redis half restricted to the operations and shapes the repositories use: kv keys hold non-empty strings; list/hash members are strings; lists are built by append/SetList(ttl 0|1h); lifetimes are 0 or whole seconds; answers compared through repoView (missing list = empty list, missing hash = empty hash, SetExpiration on a missing key = ok); Exists/GetExpiration only on kv keys",
